@@ -393,6 +393,19 @@ class BoundsAnalysis:
         A.collect_ptr_returns = []
         A.run()
         res = None
+        rets = []
+        for x in A.collect_ptr_returns:
+            if x is not None and x[0] == 'var':
+                # `return result;`: every definition of the result variable is NULL or lies in one argument's string
+                defs = getattr(A, 'ptr_defs', {}).get(x[1], [])
+                real = [d_ for d_ in defs if d_ != 'null']
+                if not real or any(d_ is None for d_ in real):
+                    rets.append(None)
+                else:
+                    rets.extend(real)
+            else:
+                rets.append(x)
+        A.collect_ptr_returns = rets
         if A.collect_ptr_returns and all(x is not None for x in A.collect_ptr_returns):
             idxs = set(i for i, _ in A.collect_ptr_returns)
             if len(idxs) == 1:
@@ -778,6 +791,7 @@ class _FuncAnalysis:
 
     def kill_strlen_of_region(self, st, region):
         # strlen of strings living in a region that is written to are no longer known
+        st = State(st.facts, frozenset((v, k) for v, k in st.regions if not (isinstance(v, tuple) and v[0] == 'charof')))
         if region is None:
             pr = lambda s: s[0] == 'strlen'
             return State(self.project(self.saturate(st, pr), pr),
@@ -1075,6 +1089,15 @@ class _FuncAnalysis:
             regions = regions | {(vid, new_region.key)}
         if prefix_mark and '\\' not in prefix_mark:
             regions = regions | {(('prefix', vid), prefix_mark)}
+        cr = self._char_read(rhs) if not is_ptr else None
+        if cr is not None:
+            # c = *p / c = p[0]: a later test of c says something about the string at p (until c or p changes, or the
+            # string is written to)
+            pn = strip(cr.ch[0])
+            first = cr.k == 'UnaryOperator' or strip(cr.ch[1]).get('v') == 0
+            if first and pn is not None and pn.k == 'DeclRefExpr' and pn['ref'].get('kind') in ('var', 'parm') and \
+                    pn['ref']['id'] != vid and is_ptr_ct(pn.get('ct')):
+                regions = regions | {(('charof', vid, pn['ref']['id']), cr.id)}
         return State(facts, regions)
 
     def call_result_facts(self, st, call, res):
@@ -1168,13 +1191,16 @@ class _FuncAnalysis:
                     if (d.get('ct') or '').rstrip().endswith(']'):
                         continue
                     st = self.assign_var(st, ref, init, e)
+                    self._note_ptr_def(st, ref, init)
                 else:
                     st = self.kill_var(st, d['id'])
             return st
         if k == 'BinaryOperator' and e['op'] == '=':
             l = strip(e.ch[0])
             if l.k == 'DeclRefExpr' and l['ref']['kind'] in ('var', 'parm'):
-                return self.assign_var(st, l['ref'], e.ch[1], e)
+                st = self.assign_var(st, l['ref'], e.ch[1], e)
+                self._note_ptr_def(st, l['ref'], e.ch[1])
+                return st
             return self.store(st, e, l)
         if k == 'CompoundAssignOperator':
             l = strip(e.ch[0])
@@ -1254,9 +1280,47 @@ class _FuncAnalysis:
                         if p['id'] == reg.key[1]:
                             if self.entails(st, v - reg.base) and self.entails(st, reg.end - v):
                                 idx = (i, self.entails(st, reg.base - v))
+                rv = strip(e.ch[0])
+                if idx is None and rv is not None and rv.k == 'DeclRefExpr' and rv['ref'].get('kind') == 'var' and \
+                        self._only_plainly_assigned(rv['ref']['id']):
+                    idx = ('var', rv['ref']['id'])      # a result variable: judged at each of its definitions
                 self.collect_ptr_returns.append(idx)
             return st
         return st
+
+    def _in_param_string(self, st, v, reg):
+        """(param index, is exactly the param) when v provably lies within [param, end of its string]"""
+        if v is not None and reg is not None and reg.key[0] == 'param' and reg.end is not None:
+            for i, p in enumerate(self.func.params):
+                if p['id'] == reg.key[1]:
+                    if self.entails(st, v - reg.base) and self.entails(st, reg.end - v):
+                        return (i, self.entails(st, reg.base - v))
+        return None
+
+    def _only_plainly_assigned(self, vid):
+        """a local that is written only by its initialiser and by plain `=`, and whose address is never taken"""
+        if not any(d['id'] == vid for d in self.func.local_decls()):
+            return False
+        for n in self.func.body.walk():
+            if (n.k == 'UnaryOperator' and n.get('op') in ('&', '++', '--')) or n.k == 'CompoundAssignOperator':
+                t = strip(n.ch[0])
+                if t is not None and t.k == 'DeclRefExpr' and t['ref'].get('id') == vid:
+                    return False
+        return True
+
+    def _note_ptr_def(self, st, ref, rhs):
+        """while summarising a pointer-returning function: what each definition of a local pointer puts into it"""
+        if self.collect_ptr_returns is None or not is_ptr_ct(self.var_types.get(ref['id'], '')):
+            return
+        r = strip(rhs)
+        if r is not None and (r.get('null') or rhs.get('null') or r.get('v') == 0):
+            what = 'null'
+        else:
+            rk = next((k_ for v_, k_ in st.regions if v_ == ref['id']), None)
+            what = self._in_param_string(st, Lin.sym(self.vsym(ref)), self.regions.get(rk) if rk is not None else None)
+        if not hasattr(self, 'ptr_defs'):
+            self.ptr_defs = {}
+        self.ptr_defs.setdefault(ref['id'], []).append(what)
 
     def read(self, st, e):
         """load through a subscript / dereference of a character object whose extent is known"""
@@ -1387,6 +1451,10 @@ class _FuncAnalysis:
                 self.oblige('write', e, 'store *%s' % render(l.ch[0])[:40], True, '',
                             how='the pointer only holds addresses of whole objects of its pointee type')
                 return self.kill_strlen_of_region(st, reg)
+            if self._from_table_of_addresses(l.ch[0]):
+                self.oblige('write', e, 'store *%s' % render(l.ch[0])[:40], True, '',
+                            how='the pointer is read from a local table whose rows hold addresses of whole objects of its pointee type')
+                return self.kill_strlen_of_region(st, reg)
             self.check_write(st, e, l.ch[0], Lin.const(self.elem_size(l.ch[0])), 'store *%s' % render(l.ch[0])[:40])
             return self.kill_strlen_of_region(st, reg)
         if l.k == 'MemberExpr':
@@ -1394,6 +1462,57 @@ class _FuncAnalysis:
             text = render(l)
             return State(self.project(st.facts, lambda s: s[0] == 'field' and s[1] == text), st.regions)
         return st
+
+    def _from_table_of_addresses(self, use):
+        """*(table[i].field) with `table` a local array of structs whose initialiser puts `&object` (of the pointee type)
+        into that field of every row, and which is never written afterwards"""
+        u = strip(use)
+        if u is None or u.k != 'MemberExpr' or u.get('arrow'):
+            return False
+        b = strip(u.ch[0])
+        if b is None or b.k != 'ArraySubscriptExpr':
+            return False
+        t = strip(b.ch[0])
+        if t is None or t.k != 'DeclRefExpr' or t['ref'].get('kind') != 'var':
+            return False
+        pt = (u.get('ct') or '').strip()
+        for q in ('const', 'restrict', '__restrict'):
+            if pt.endswith(q):
+                pt = pt[:-len(q)].rstrip()
+        if not pt.endswith('*') or 'char' in pt:
+            return False
+        want = pt[:-1].strip()
+        decl = next((x for x in self.func.local_decls() if x['id'] == t['ref']['id']), None)
+        if decl is None or decl.get('init', -1) == -1 or not decl.get('const'):
+            return False
+        init = strip(self.func.nodes[decl['init']])
+        if init is None or init.k != 'InitListExpr':
+            return False
+        # no store into the table after its initialisation
+        for m in self.func.body.walk():
+            if m.k in ('BinaryOperator', 'CompoundAssignOperator') and (m.get('op') == '=' or m.k == 'CompoundAssignOperator'):
+                loc = strip(m.ch[0])
+                while loc is not None and ((loc.k == 'MemberExpr' and not loc.get('arrow')) or loc.k == 'ArraySubscriptExpr'):
+                    loc = strip(loc.ch[0])
+                if loc is not None and loc.k == 'DeclRefExpr' and loc['ref'].get('id') == t['ref']['id']:
+                    return False
+        rows = [strip(r) for r in init.ch if r is not None]
+        if not rows:
+            return False
+        fname = u.get('member')
+        for r in rows:
+            if r is None or r.k != 'InitListExpr':
+                return False
+            hit = False
+            for x in r.ch:
+                sx = strip(x) if x is not None else None
+                if sx is not None and sx.k == 'UnaryOperator' and sx.get('op') == '&':
+                    tt = strip(sx.ch[0])
+                    if tt is not None and (tt.get('ct') or '').strip() == want:
+                        hit = True
+            if not hit:
+                return False
+        return bool(fname)
 
     def _holds_addresses_of_whole_objects(self, d, use):
         pt = (use.get('ct') or '').strip()
@@ -1675,6 +1794,9 @@ class _FuncAnalysis:
             st = State(st.facts, st.regions | {mark})
         if facts is not None:
             facts = list(facts) + self.partner_char_facts(c, truth, st)
+        cf = self.copied_char_facts(c, truth, st)
+        if cf:
+            facts = list(facts or []) + cf
         if facts is None:
             return st
         new = st.facts
@@ -1809,6 +1931,35 @@ class _FuncAnalysis:
                             out += self.char_at_fact(o, True, st)
                         elif o is not None:
                             out += self.char_fact(o.ch[0], True, st)
+        return out
+
+    def copied_char_facts(self, c, truth, st):
+        """a test of a variable that holds a copy of *p: c == K (K not NUL), c != NUL, or plain c"""
+        neg = False
+        while c is not None and c.k == 'UnaryOperator' and c['op'] == '!':
+            neg = not neg
+            c = strip(c.ch[0])
+        if c is None:
+            return []
+        x, nonzero = None, None
+        if c.k == 'BinaryOperator' and c['op'] in ('==', '!='):
+            for p_, q_ in ((c.ch[0], c.ch[1]), (c.ch[1], c.ch[0])):
+                sp = strip(p_)
+                if sp is not None and sp.k == 'DeclRefExpr' and strip(q_).get('v') is not None:
+                    x = sp
+                    v = strip(q_)['v']
+                    eq = ((c['op'] == '==') != neg) == truth
+                    nonzero = (not eq) if v == 0 else (eq or None)
+        elif c.k == 'DeclRefExpr':
+            x, nonzero = c, (truth != neg)
+        if x is None or not nonzero or x['ref'].get('kind') not in ('var', 'parm'):
+            return []
+        out = []
+        for v, k in st.regions:
+            if isinstance(v, tuple) and v and v[0] == 'charof' and v[1] == x['ref']['id']:
+                n = self.func.nodes.get(k)
+                if n is not None:
+                    out += self.char_fact(n.ch[0], True, st)
         return out
 
     def char_at_fact(self, sub, nonzero, st):
